@@ -195,8 +195,10 @@ def check(ck):
                     b = g.nodes[d]
                     if b.kind == "branch" and b.polarity is False and isinstance(b.test, ast.Call) and dump(b.test.func) == "isinstance":
                         ex = True
-                    if b.kind == "branch" and b.polarity is False and dump(b.test) == "version":
-                        ex = True
+                    if b.kind == "branch" and b.polarity is False:
+                        tv = prov.origin(g, b, b.test)
+                        if tv[0] == "call" and tv[1] == ("global", "get_version"):
+                            ex = True
                 if ex:
                     ck.ok("C13.4", label + " [no version marker]", "exempt: entry has no version to follow", q.loc(fi, n))
                     continue
